@@ -1,8 +1,10 @@
 ------------------------ MODULE NdnPacketsCertHistTrace ------------------------
 (* Histories recorded from real signer objects (every signer class, longer than the exhaustive
    bound, more locators) must be behaviours of NdnPacketsCertHist with DevCache = FALSE.
-   record: [init, ev: <<[a |-> "SetLocator", l], [a |-> "SignData"], [a |-> "Issue", fn, kl]>>]
-   kl = identifier of the locator found in the certificate (0 = none of the configured ones);
+   record: [init, ev: <<[a |-> "SetLocator", l], [a |-> "SignData"], [a |-> "Issue", fn, kl, iss], [a |-> "Scribble", i]>>]
+   kl = identifier of the locator found in the certificate (0 = none of the configured ones); iss = the issuer-id component
+   found in its name ("ref" = what the reference says, "scribbled" = bytes the caller wrote into an earlier result or argument,
+   "other"); Scribble: the caller overwrote every mutable object of its i-th result and of the arguments handed in for it;
    every event carries after = identifier of the locator configured in the signer object after the step.  *)
 EXTENDS NdnPacketsCertHist, Json, IOUtils, TLCExt
 Traces == ndJsonDeserialize(IOEnv.TRACE_FILE)
@@ -15,12 +17,13 @@ Ev(a) == l <= Len(Tr) /\ Tr[l].a = a /\ l' = l + 1 /\ UNCHANGED tid
 After == loc' = Tr[l].after
 TSet == Ev("SetLocator") /\ SetLocator(Tr[l].l) /\ After
 TData == Ev("SignData") /\ SignData /\ After
-TIssue == Ev("Issue") /\ Issue(Tr[l].fn) /\ issued'[Len(issued')].kl = Tr[l].kl /\ After
+TIssue == Ev("Issue") /\ Issue(Tr[l].fn) /\ issued'[Len(issued')].kl = Tr[l].kl /\ issued'[Len(issued')].iss = Tr[l].iss /\ After
+TScribble == Ev("Scribble") /\ Scribble(Tr[l].i) /\ After
 \* [a |-> "Recheck", same: <<BOOLEAN ...>>]: is each certificate issued so far (returned buffer, returned name, parse
-\* results held since) still what it was when it was issued
+\* results held since) still what it was when it was issued - except those the caller itself scribbled over (scr)
 TRecheck == /\ l <= Len(Tr) /\ Tr[l].a = "Recheck" /\ l' = l + 1 /\ UNCHANGED <<tid, vars>>
-            /\ Len(Tr[l].same) = Len(issued) /\ \A i \in 1..Len(issued) : Tr[l].same[i]
-TNext == TSet \/ TData \/ TIssue \/ TRecheck
+            /\ Len(Tr[l].same) = Len(issued) /\ \A i \in 1..Len(issued) : i \in scr \/ Tr[l].same[i]
+TNext == TSet \/ TData \/ TIssue \/ TScribble \/ TRecheck
 TSpec == TInit /\ [][TNext]_tvars
 Mark == TLCSet(tid, Max2(TLCGet(tid), l))
 Post == \A i \in 1..Len(Traces) : TLCGet(i) = Len(Traces[i].ev) + 1 \/ PrintT(<<"REJECTED", i, TLCGet(i)>>)
